@@ -221,6 +221,11 @@ def lower_fn(fn, crate):
             if lower_option(fn, crate, bi, mo.group(1)):
                 n += 1
             continue
+        if _ADAPTED_NEXT.match(name) and not c.get('local'):
+            if lower_for_next(fn, crate, bi):
+                n += 1
+                fn._succ = fn._pred = fn._dom = fn._pdom = None
+            continue
         m = _CONS_RE.match(name)
         if not m or c.get('local'):
             continue
@@ -485,3 +490,98 @@ def next_model(crate, kinds):
     fn.blocks[cur]['term'] = ['goto', RET]
     _MODELS[key] = fn
     return fn
+
+
+# ---------------------------------------------------------------------------------------------------------------------
+# `for x in base.filter(p).map(f) { body }`: the loop's own `next` is on a statically known adaptor chain.  It is expanded
+# in place - raw next, then the closures, a rejected element going straight back to the loop head - so that the loop
+# has one way round per element of the base sequence, exactly like `for x in base { if !p(x) { continue } .. }`.
+
+_ADAPTED_NEXT = re.compile(r'^<std::iter::(Map|Filter|FilterMap|TakeWhile|Inspect)<.*> as std::iter::Iterator>::next$')
+
+
+def place_behind(fn, bi, op):
+    """the place a `&mut` operand of block bi refers to, following the re-borrows made in that block"""
+    if op[0] not in ('move', 'copy') or op[1]['p']:
+        return None
+    l = op[1]['l']
+    for _ in range(4):
+        src = None
+        for s_ in fn.blocks[bi]['stmts']:
+            if s_[0] == 'assign' and s_[1]['l'] == l and not s_[1]['p'] and s_[2][0] == 'ref' and s_[2][1]:
+                src = s_[2][2]
+        if src is None:
+            return None
+        if not src['p']:
+            return src
+        if len(src['p']) == 1 and src['p'][0][0] == 'deref':
+            l = src['l']
+            continue
+        return None
+    return None
+
+
+def lower_for_next(fn, crate, bi):
+    blk = fn.blocks[bi]
+    t = blk['term']
+    c, args, dest, target, line, exp = t[1], t[2], t[3], t[4], t[5], t[6]
+    tys = c.get('arg_tys') or []
+    if len(args) != 1 or len(tys) != 1 or not tys[0].startswith('&mut ') or dest['p']:
+        return False
+    inner_ty = tys[0][5:]
+    chain = chain_of(inner_ty)
+    if not chain or 'filter_map' in chain:
+        return False
+    # only when this `next` is the test of a loop: head chain -> switch on the discriminant of its result
+    loops = fn.loops()
+    head = None
+    for h in loops:
+        ch, _, sw = fn.loop_test(h)
+        if bi in ch and sw == target:
+            head = h
+    if head is None:
+        return False
+    swb = fn.blocks[target]
+    if swb['term'][0] != 'switch':
+        return False
+    some = [tb for v, tb in swb['term'][2] if v == 1]
+    itplace = place_behind(fn, bi, args[0])
+    if len(some) != 1 or itplace is None:
+        return False
+    BODY = some[0]
+    B = Builder(fn, line, exp)
+    oty = dest['ty']
+    payload = P(dest['l'], '?', [['downcast', 'Some', 1], ['field', 0, '0', 'std::option::Option', '?']])
+    first = B.block()
+    cur = first
+    rty = '&mut ' + inner_ty
+    for k, kind in enumerate(chain):
+        nxt = B.block()
+        r = B.local(rty, None)
+        fn.blocks[cur]['stmts'].append(B.assign(P(r, rty), ['ref', True, itplace]))
+        itop = ['move', P(r, rty)]
+        if kind == 'map':
+            Y = B.local('?', None)
+            mid = B.block()
+            fn.blocks[cur]['term'] = B.closure_call(itop, [['move', payload]], P(Y, '?'), mid, from_iter=k)
+            fn.blocks[mid]['stmts'] = [B.assign(payload, ['use', ['move', P(Y, '?')]])]
+            fn.blocks[mid]['term'] = ['goto', nxt]
+        else:
+            XR = B.local('&?', None)
+            fn.blocks[cur]['stmts'].append(B.assign(P(XR, '&?'), ['ref', False, payload]))
+            Cc = B.local('bool' if kind != 'inspect' else '()', None)
+            mid = B.block() if kind != 'inspect' else nxt
+            fn.blocks[cur]['term'] = B.closure_call(itop, [['move', P(XR, '&?')]], P(Cc, 'bool'), mid, from_iter=k)
+            if kind == 'filter':
+                fn.blocks[mid]['term'] = ['switch', ['move', P(Cc, 'bool')], [[0, bi]], nxt, 'bool', line, exp]
+            elif kind == 'take_while':
+                none = [tb for v, tb in swb['term'][2] if v == 0]
+                if len(none) != 1:
+                    return False
+                fn.blocks[mid]['term'] = ['switch', ['move', P(Cc, 'bool')], [[0, none[0]]], nxt, 'bool', line, exp]
+        cur = nxt
+    fn.blocks[cur]['term'] = ['goto', BODY]
+    swb['term'] = ['switch', swb['term'][1], [[v, (first if v == 1 else tb)] for v, tb in swb['term'][2]], swb['term'][3], swb['term'][4], swb['term'][5], swb['term'][6]]
+    t[1] = dict(c, callee='#raw_next', resolved='#raw_next', local=False)
+    fn._succ = fn._pred = fn._dom = fn._pdom = None
+    return True
